@@ -142,13 +142,18 @@ func genSteps(t *rapid.T, nseq, attempts int, statuses []int, inCond func(int) b
 	// ... turned into a history of logical calls
 	started := make([]bool, nseq)
 	reuse := make([]bool, nseq)
+	since := make([]int, nseq) // in-condition responses since the call started
+	over := make([]bool, nseq) // the last response was outside the condition
 	steps := []step{}
 	for _, r := range raws {
 		st := step{Seq: r.Seq}
-		if !started[st.Seq] {
+		switch {
+		case !started[st.Seq]:
 			st.NewCall = r.First != 11 // the very first response on an id: a call start, rarely a stray transaction
-		} else {
-			st.NewCall = r.NC == 2*attempts+3
+		case over[st.Seq] || since[st.Seq] > attempts:
+			st.NewCall = r.NC%3 != 0 // the call is over (as far as the client can tell): reuse the id for a new call, or a stray re-send
+		default:
+			st.NewCall = r.NC == 2*attempts+3 // abandon the call mid-way and reuse its id
 		}
 		if st.NewCall {
 			st.IDEq = true
@@ -161,6 +166,15 @@ func genSteps(t *rapid.T, nseq, attempts int, statuses []int, inCond func(int) b
 			st.Status = in[r.Status%len(in)]
 		} else {
 			st.Status = out[r.Status%len(out)]
+		}
+		if st.NewCall {
+			since[st.Seq] = 0
+		}
+		if inCond(st.Status) {
+			since[st.Seq]++
+			over[st.Seq] = false
+		} else {
+			over[st.Seq] = true
 		}
 		st.Park = park && r.Park == 2
 		if advs != nil {
